@@ -39,7 +39,7 @@ ORCH = 'chainables.orchestrate'
 
 
 def run(ctx: Ctx):
-  for r in (r1, r2, r3, r4, r6, r7, r8, r12):
+  for r in (r1, r2, r3, r4, r6, r7, r8, r12, r13):
     ctx.guard(r)
   from mlmverif.props import c09
   from mlmverif.props import c13, c16
@@ -533,10 +533,54 @@ def r8(ctx: Ctx):
   ctx.floor(rule, 1, n)
 
 
+def r13(ctx: Ctx):
+  rule = 'R-C03-13'
+  ctx.rule(rule, '"as one fused stage or as a chain of named stages": the aggregation state a chain exports is the UNION of its'
+           ' stage states, later stages overwriting earlier ones (dict(chain(items...))) — so the stage states must be'
+           ' key-disjoint: every stage iterator keeps only the entries of its OWN aggregates (the state it is handed is'
+           ' filtered by membership in its runner\'s agg_fns), or the union itself restricts each stage to its own keys.'
+           ' A stage that also carries the (initial) entries of other stages overwrites their up-to-date states in the'
+           ' exported state: the merged result of sharded runs loses the earlier stages\' aggregates')
+  repo = ctx.repo
+  ci = repo.cls(TR, '_RunnerIterator')
+  init = ci.methods.get('__init__')
+  if init is None:
+    raise AnalysisError('_RunnerIterator.__init__ not found')
+  stores = [x for x in walk_no_nested(init.node) if isinstance(x, ast.Assign) and any(is_self_attr(t, 'agg_state') for t in x.targets)]
+  if not stores:
+    raise AnalysisError('_RunnerIterator.__init__ does not set agg_state')
+
+  def own_filter(e):
+    for c in ast.walk(e):
+      if isinstance(c, (ast.DictComp, ast.GeneratorExp, ast.ListComp)):
+        for g_ in c.generators:
+          for cond in g_.ifs:
+            if any(isinstance(y, ast.Compare) and any(isinstance(o, ast.In) for o in y.ops)
+                   and 'agg_fns' in unparse(y.comparators[0]) for y in ast.walk(cond)):
+              return True
+    return False
+
+  union = repo.func(TR, '_ChainedRunnerIterator.agg_state')
+  union_filters = own_filter(union.node)
+  for st_ in stores:
+    what = '_RunnerIterator: a stage keeps only the aggregation entries of its own aggregates'
+    if own_filter(st_.value) or union_filters:
+      ctx.ok(rule, init, what, st_)
+    else:
+      ctx.fail(rule, init, what,
+               f'`{unparse(st_)[:80]}` keeps every entry of the state it is handed, and _ChainedRunnerIterator.agg_state unions'
+               ' the stage states with later stages winning: a later stage\'s stale copy of an earlier stage\'s entry'
+               ' overwrites the up-to-date one in the exported state (sharded runs merge that state)', node=st_)
+  ctx.floor(rule, 1)
+
+
 from mlmverif.selfcheck import B, OK  # noqa: E402
 
 _T = 'chainables/transform.py'
 VARIANTS = [
+    B('stage-iterator-keeps-foreign-entries', 'chainables/transform.py',
+      '    self.agg_state = {\n        k: v for k, v in state.items() if k.metrics in self._runner.agg_fns\n    }',
+      '    self.agg_state = dict(state)', 'R-C03-13'),
     B('every-aggregating-stage-drops-its-batches', 'chainables/orchestrate.py',
       '        aggregate_only=aggregate_only and is_last_stage,', '        aggregate_only=aggregate_only and bool(transform.agg_fns),', 'R-C03-12'),
     OK('last-stage-test-inlined', 'chainables/orchestrate.py',
